@@ -9,6 +9,10 @@ CLAIMED = {
             "Static, all-paths: the full decision table of every workspace impl RetrySession is extracted from type-checked MIR and every Retry* site is shown to lie where is_idempotent is true or the error class is within the SAFE set; the interpreting loop is shown (reachability after cuts) to re-send only through a Retry* decision. Decides the structural clauses, not end-to-end frame counts.",
             "Trusts rustc MIR construction; SAFE set transcribed from the property text; user-supplied policies out of scope.",
             "DESIGN.md §3 C06"),
+    "C09": ("MIR emission-sequence extraction with dataflow guards (flag/field/writer pairing, order), evaluated constant tables, cast census",
+            "Static: for QUERY/EXECUTE parameters and BATCH every `flags |= C` site and its payload writer are shown to be guarded by the presence of the same field, to use the CQL v4 writer for that item and to write that field; the emission order of every SerializableRequest equals the v4 grammar; opcode/flag constants and the header layout in SerializedRequest::make equal the v4 tables; no narrowing `as` cast of a length/count remains in request building (the two that existed were repaired by a fix: commit). Because each guard depends on one field, the 2^6 option subsets reduce to independent per-field obligations, all checked.",
+            "Trusts rustc MIR; CQL v4 tables transcribed by hand; compression libraries and value encodings (C01) out of scope.",
+            "DESIGN.md §3 C09"),
     "C18": ("MIR who-writes census on the atomic + dataflow/dominance on the CAS loop and compute_next exits + call-graph provenance of the frame timestamp",
             "Static, all-paths: `last` is written only by one compare_exchange whose operands are (value loaded this iteration, compute_next(that value)); next_timestamp returns only in the CAS-success region and returns the published value; compute_next returns the clock reading only in the `reading > last` region, else last+c. These shapes make the textbook CAS argument (pairwise distinct, per-thread increasing, any interleaving, any clock) applicable. The generator is shown to be consulted only as the or_else fallback of the statement's own timestamp.",
             "Trusts rustc MIR, compare_exchange semantics; i64 overflow at last+1 and user-provided generators not covered.",
